@@ -24,7 +24,11 @@ def start_pot(rng):
 
 
 def end_pot(rng):
-    k = rng.choice(["buck", "buck-disp", "lj", "morse", "buck"])
+    k = rng.choice(["buck", "buck-disp", "lj", "morse", "buck", "zero", "zero-constant"])
+    if k == "zero":
+        return "zero", []                      # an end potential that is EXACTLY zero at the attach point (value, slope and curvature): the exponential spline shifts it upwards
+    if k == "zero-constant":
+        return "constant", [0.0]
     if k == "buck":
         return "buck", [rnd(rng, 500, 3000, 1), rnd(rng, 0.2, 0.4, 3), rnd(rng, 5, 80, 1)]
     if k == "buck-disp":
